@@ -7,6 +7,7 @@ from sa.logic import path_condition
 from sa.abseval import ev, Unknown, track_block, Opaque
 from sa.consteval import ConstEnv
 from props.c01 import ctor_fields, SSH2_SLOTS
+from props import _codec
 
 EXPL = ('Decides the clauses visible in code shape: (1) the writer and the parser of each message perform the same sequence of codec operations on the same fields (KEXINIT: cookie, ten name-lists, bool, uint32; '
         'SSH-1 public key message: cookie, (uint32, mpint, mpint) x 2, three uint32); the DoS module\'s KEXINIT builder is a third sibling; (2) each primitive writer/reader pair uses the same struct format and length arithmetic; '
@@ -126,182 +127,53 @@ def run(repo, rep, tier):
     rep.check('siblings', 'SSH-1 accessors name the fields in packet order', gotf == [t for op, sz, t in reads1], pp, 'SSH-1 accessors %s yield %s, the packet is %s' % (want_f, gotf, [t for op, sz, t in reads1]))
     rep.check('siblings', 'SSH-1 cookie is 8 bytes', bool(reads1) and reads1[0][1] == 8, pp, 'SSH-1 cookie size changed')
 
-    # ---- rule 2: primitive pairs -------------------------------------------------------------------------------------------
+    # ---- rules 2 and 3: primitive writer / reader pairs, by interpretation (props/_codec.py) ------------------------------------------------
+    # Every writer is interpreted on a family of values and must put the RFC 4251 (SSH-1: protocol 1.5) encoding on the stream; every reader is
+    # interpreted on that encoding and must return the value and consume exactly those bytes.  Both directions are stated against the documented
+    # encoding, so the report names the side that is wrong; together they are the round trip on the family.
     def F(mod, q):
         f = repo.func(mod, q)
         rep.saw(f)
         return f
-    for wq, rq, fmt in (('WriteBuf.write_byte', 'ReadBuf.read_byte', 'B'), ('WriteBuf.write_int', 'ReadBuf.read_int', '>I')):
-        wfm = [x for x, n in fmt_of(F('writebuf', wq))]
-        rfm = [x for x, n in fmt_of(F('readbuf', rq))]
-        rep.check('primitives', '%s / %s use format %r' % (wq, rq, fmt), wfm == [fmt] and rfm == [fmt], F('readbuf', rq), '%s packs %s, %s unpacks %s' % (wq, wfm, rq, rfm), sample={'rule': 'primitives', 'pair': [wq, rq], 'format': fmt})
-        rd = [n for n in walk_no_nested(F('readbuf', rq)) if isinstance(n, ast.Call) and unparse(n.func) == 'self.read']
-        rep.check('primitives', '%s reads calcsize(%r) = %d bytes' % (rq, fmt, struct.calcsize(fmt)), len(rd) == 1 and unparse(rd[0].args[0]) == str(struct.calcsize(fmt)), F('readbuf', rq), '%s reads %s bytes' % (rq, unparse(rd[0].args[0]) if rd else '?'))
-    # write_string: the length prefix counts the very bytes that follow.  Typestate on the CFG: the operand of len() in the length prefix and the value
-    # written after it must be the same name, and on every path to the prefix that name holds bytes (annotation says bytes only, or a dominating
-    # `if not isinstance(v, bytes): v = <bytes-producing expression>`); a str reaching len() is counted in code points but written as UTF-8.
-    wsf = F('writebuf', 'WriteBuf.write_string')
-    from sa.cfg import CFG as _CFG, describe_path as _dp
-    wcfg = _CFG(wsf, exc_edges=False)
-    pref = [n for n in walk_no_nested(wsf) if isinstance(n, ast.Call) and unparse(n.func) == 'self.write_int' and n.args and isinstance(n.args[0], ast.Call) and unparse(n.args[0].func) == 'len']
-    wr = [n for n in walk_no_nested(wsf) if isinstance(n, ast.Call) and unparse(n.func) == 'self.write' and n.args]
-    ok = len(pref) == 1 and len(wr) == 1 and isinstance(pref[0].args[0].args[0], ast.Name) and unparse(wr[0].args[0]) == unparse(pref[0].args[0].args[0]) and pref[0].lineno < wr[0].lineno
-    rep.check('primitives', 'write_string = uint32 length of v, then v itself', ok, wsf, 'write_string no longer writes len(v) followed by v')
-    if ok:
-        vname = pref[0].args[0].args[0].id
-        ann = next((unparse(a.annotation) for a in wsf.args.args if a.arg == vname and a.annotation is not None), None)
-        may_be_str = ann is None or 'str' in ann or 'Any' in ann
+    cm = _codec.Model(repo)
+    ints = _codec.int_family()
+    PAIRS = [
+        # writer, reader, values, documented encoding, decoded value, rule
+        ('write_byte', 'read_byte', list(range(256)), lambda v: bytes([v]), lambda v: v, 'primitives'),
+        ('write_bool', 'read_bool', [True, False], lambda v: b'\x01' if v else b'\x00', lambda v: v, 'primitives'),
+        ('write_int', 'read_int', _codec.UINT32, lambda v: struct.pack('>I', v), lambda v: v, 'primitives'),
+        ('write_string', 'read_string', _codec.STRINGS, _codec.expected_string, lambda v: v.encode('utf-8') if isinstance(v, str) else v, 'primitives'),
+        ('write_list', 'read_list', _codec.LISTS, _codec.expected_list, lambda v: v, 'primitives'),
+        ('write_mpint1', 'read_mpint1', [n for n in ints if n >= 0], _codec.expected_mpint1, lambda v: v, 'words'),
+        ('write_mpint2', 'read_mpint2', ints, _codec.expected_mpint2, lambda v: v, 'words'),
+    ]
+    for wname, rname, values, enc, dec, rule in PAIRS:
+        wf, rf = F('writebuf', 'WriteBuf.' + wname), F('readbuf', 'ReadBuf.' + rname)
+        wbad, rbad = [], []
+        for v in values:
+            want = enc(v)
+            got = cm.write(wname, v)
+            rep.evals()
+            if got != want:
+                wbad.append((v, got, want))
+            back = cm.read(rname, want)
+            rep.evals()
+            if back != (dec(v), len(want)):
+                rbad.append((v, back, want))
 
-        def makes_bytes(e):
-            if isinstance(e, ast.Call):
-                fn = unparse(e.func)
-                return fn in ('bytes', 'bytearray') or (isinstance(e.func, ast.Attribute) and e.func.attr == 'encode') or fn.endswith('to_bytes')
-            if isinstance(e, ast.IfExp):
-                # x if isinstance(x, bytes) else <bytes-producing expression>   (and the mirrored form)
-                t = e.test
-                neg = isinstance(t, ast.UnaryOp) and isinstance(t.op, ast.Not)
-                c = t.operand if neg else t
-                if isinstance(c, ast.Call) and unparse(c.func) == 'isinstance' and len(c.args) == 2 and unparse(c.args[1]) == 'bytes':
-                    keep, conv = (e.orelse, e.body) if neg else (e.body, e.orelse)
-                    return unparse(keep) == unparse(c.args[0]) and makes_bytes(conv)
-            return isinstance(e, ast.Constant) and isinstance(e.value, bytes)
-
-        def converts(st):
-            # `v = <bytes>` under `not isinstance(v, bytes)` (or unconditionally)
-            return isinstance(st, ast.Assign) and len(st.targets) == 1 and unparse(st.targets[0]) == vname and makes_bytes(st.value)
-
-        def narrows(node):
-            # the branch node taken when isinstance(v, bytes) is known true
-            st = node.stmt
-            if node.kind != 'branch' or not isinstance(st, ast.If):
-                return False
-            t = st.test
-            pos = isinstance(t, ast.Call) and unparse(t.func) == 'isinstance' and len(t.args) == 2 and unparse(t.args[0]) == vname and unparse(t.args[1]) == 'bytes'
-            neg = isinstance(t, ast.UnaryOp) and isinstance(t.op, ast.Not) and isinstance(t.operand, ast.Call) and unparse(t.operand.func) == 'isinstance' and len(t.operand.args) == 2 \
-                and unparse(t.operand.args[0]) == vname and unparse(t.operand.args[1]) == 'bytes'
-            return (pos and node.label == 'T') or (neg and node.label == 'F')
-        if may_be_str:
-            gates = [n for n in wcfg.nodes if (n.stmt is not None and n.kind == 'stmt' and converts(n.stmt)) or narrows(n)]
-            targets = wcfg.stmts_matching(lambda st: any(x is pref[0] for x in ast.walk(st)))
-            pth = wcfg.find_path([wcfg.entry], targets, avoid=gates)
-            rep.check('primitives', 'the length prefix of write_string is taken on bytes on every path (a str is converted first)', pth is None, pref[0],
-                      'write_string takes len(%s) while %s may still be a str: the prefix counts code points but the value is written as UTF-8, so a string with non-ASCII characters is followed by more bytes than announced and the rest of the message is misparsed' % (vname, vname),
-                      witness=_dp(pth) if pth else None, stmt='write_string length prefix on bytes')
-    rsq = F('readbuf', 'ReadBuf.read_string')
-    body = flow_texts(rsq)
-    rep.check('primitives', 'read_string = uint32 length + that many bytes', body == ['return self.read(self.read_int())'], rsq, 'read_string body: %s' % body)
-    t = unparse(F('writebuf', 'WriteBuf.write_list'))
-    rep.check('primitives', "write_list joins with ','", "self.write_string(','.join(v))" in t, F('writebuf', 'WriteBuf.write_list'), 'write_list changed')
-    rl = F('readbuf', 'ReadBuf.read_list')
-    body = flow_texts(rl)
-    rep.check('primitives', "read_list = uint32 length + bytes, split on ','", body in (["return self.read(self.read_int()).decode('utf-8', 'replace').split(',')"], ["return self.read_string().decode('utf-8', 'replace').split(',')"]), rl, 'read_list body: %s' % body)
-    t = unparse(F('writebuf', 'WriteBuf.write_bool'))
-    rep.check('primitives', 'write_bool writes byte 1/0', 'self.write_byte(1 if v else 0)' in t, F('writebuf', 'WriteBuf.write_bool'), 'write_bool changed')
-    t = unparse(F('readbuf', 'ReadBuf.read_bool'))
-    rep.check('primitives', 'read_bool is byte != 0', 'return self.read_byte() != 0' in t, F('readbuf', 'ReadBuf.read_bool'), 'read_bool changed')
-    w1 = F('writebuf', 'WriteBuf.write_mpint1')
-    r1 = F('readbuf', 'ReadBuf.read_mpint1')
-    wfm = [x for x, n in fmt_of(w1)]
-    rfm = [x for x, n in fmt_of(r1)]
-    rep.check('primitives', "mpint1: 16-bit big-endian bit count on both sides", wfm == ['>H'] and rfm == ['>H'], r1, 'mpint1 formats: %s / %s' % (wfm, rfm))
-    t = unparse(r1)
-    rep.check('primitives', 'read_mpint1 reads (bits + 7) // 8 bytes', 'n = (bits + 7) // 8' in t and 'self.read(n)' in t and 'self.read(2)' in t, r1, 'read_mpint1 length arithmetic changed')
-    t = unparse(w1)
-    rep.check('primitives', 'write_mpint1 writes the bit length of n and its unsigned bytes', 'bits = self._bitlength(n)' in t and 'self._create_mpint(n, False, bits)' in t, w1, 'write_mpint1 changed')
-    t = ' ; '.join(flow_texts(F('writebuf', 'WriteBuf.write_mpint2')))
-    rep.check('primitives', 'write_mpint2 = string of the signed big-endian bytes', 'self.write_string(self._create_mpint(n))' in t, F('writebuf', 'WriteBuf.write_mpint2'), 'write_mpint2 changed')
-    t = unparse(F('readbuf', 'ReadBuf.read_mpint2'))
-    rep.check('primitives', 'read_mpint2 starts from read_string', 'self.read_string()' in t, F('readbuf', 'ReadBuf.read_mpint2'), 'read_mpint2 changed')
-
-    # ---- rule 3: word composition -----------------------------------------------------------------------------------------------
-    rb = repo.cls('readbuf', 'ReadBuf')
-    accum = []
-    for f in [s for s in rb.body if isinstance(s, ast.FunctionDef)]:
-        for n in walk_no_nested(f):
-            if isinstance(n, ast.Assign) and isinstance(n.value, ast.BinOp) and isinstance(n.value.op, ast.BitOr) and isinstance(n.value.left, ast.BinOp) and isinstance(n.value.left.op, ast.LShift):
-                for c in ast.walk(n.value.right):
-                    if isinstance(c, ast.Call) and unparse(c.func) == 'struct.unpack':
-                        accum.append((f, n, c))
-    for f, n, c in accum:
-        fa = c.args[0]
-        if isinstance(fa, ast.Constant):
-            fmts = [(fa.value, c)]
-        elif isinstance(fa, ast.Name) and fa.id in [a.arg for a in f.args.args]:
-            # format is a parameter: collect the constants at every call site in the class
-            fmts = []
-            pidx = [a.arg for a in f.args.args].index(fa.id) - 1
-            for g in [s for s in rb.body if isinstance(s, ast.FunctionDef)]:
-                for call in walk_no_nested(g):
-                    if isinstance(call, ast.Call) and unparse(call.func) in ('self.%s' % f.name, 'cls.%s' % f.name) and len(call.args) > pidx:
-                        a = call.args[pidx]
-                        if isinstance(a, ast.Constant):
-                            fmts.append((a.value, call))
-                        elif isinstance(a, ast.Name):
-                            for d in walk_no_nested(g):
-                                if isinstance(d, ast.Assign):
-                                    tg, vl = d.targets[0], d.value
-                                    cands = []
-                                    if isinstance(tg, ast.Tuple) and a.id in [unparse(x) for x in tg.elts]:
-                                        i = [unparse(x) for x in tg.elts].index(a.id)
-                                        if isinstance(vl, ast.IfExp):
-                                            cands = [vl.body, vl.orelse]
-                                        else:
-                                            cands = [vl]
-                                        for cv in cands:
-                                            if isinstance(cv, ast.Tuple) and isinstance(cv.elts[i], ast.Constant):
-                                                fmts.append((cv.elts[i].value, d))
-                        else:
-                            raise AnalysisError('format argument of %s not constant at %s' % (f.name, unparse(call)))
-        else:
-            raise AnalysisError('accumulate-by-shift loop with a non-constant format in %s' % f.name)
-        if not fmts:
-            raise AnalysisError('no call site constants found for %s' % f.name)
-        for fm, site in fmts:
-            signed = any(ch in fm for ch in 'bhilq')
-            rep.check('words', 'accumulate-by-shift in %s composes unsigned words (format %r)' % (f.name, fm), not signed, site,
-                      'words are unpacked with the signed format %r and OR-ed into the shifted accumulator: every negative low word sets all higher bits, so negative multi-word integers decode wrongly (e.g. -0x180000000 reads back as -0x80000000)' % fm,
-                      func='readbuf:ReadBuf.%s' % f.name, stmt='word format %r' % fm, sample={'rule': 'words', 'function': f.name, 'format': fm})
-    if not accum:
-        # no word-by-word composition left: the reader must decode through int.from_bytes (total, sign handled by the library)
-        r2 = repo.func('readbuf', 'ReadBuf.read_mpint2')
-        ok = any(isinstance(n, ast.Call) and unparse(n.func) == 'int.from_bytes' for f in [s for s in rb.body if isinstance(s, ast.FunctionDef)] for n in ast.walk(f))
-        rep.check('words', 'multi-precision reader decodes with int.from_bytes', ok, r2, 'no recognised multi-precision decoding idiom')
-    else:
-        rep.floor('words', 'accumulate-by-shift sites', len(accum), 1)
-    # signed=True decoding, if present, must be applied to the whole string exactly once
-    r2 = repo.func('readbuf', 'ReadBuf.read_mpint2')
-    fb = [n for n in ast.walk(r2) if isinstance(n, ast.Call) and unparse(n.func) == 'int.from_bytes']
-    for n in fb:
-        kws = {k.arg: unparse(k.value) for k in n.keywords}
-        args = [unparse(a) for a in n.args]
-        ok = args[:1] == ['v'] and ("'big'" in args or kws.get('byteorder') == "'big'") and kws.get('signed') == 'True'
-        rep.check('words', 'read_mpint2 decodes the whole string as big-endian two\'s complement', ok, n, 'int.from_bytes arguments: %s %s' % (args, kws))
-
-    # the multi-precision WRITER fills every 64-bit word it allocates (the sign of a negative value lives in the top word)
-    cm = repo.func('writebuf', 'WriteBuf._create_mpint')
-    rep.saw(cm)
-    alloc = None
-    for n in walk_no_nested(cm):
-        if isinstance(n, ast.Assign):
-            tg, vl = n.targets[0], n.value
-            pairs = list(zip(tg.elts, vl.elts)) if isinstance(tg, ast.Tuple) and isinstance(vl, ast.Tuple) else [(tg, vl)]
-            for a, b in pairs:
-                if isinstance(b, ast.BinOp) and isinstance(b.op, ast.Mult) and isinstance(b.left, ast.List) and unparse(b.left) == '[0]':
-                    alloc = (unparse(a), unparse(b.right), n)
-    if alloc is None:
-        raise AnalysisError('word array allocation `[0] * n` not found in _create_mpint')
-    arr, size, anode = alloc
-    floops = [n for n in walk_no_nested(cm) if isinstance(n, ast.For) and any(isinstance(x, ast.Assign) and isinstance(x.targets[0], ast.Subscript) and unparse(x.targets[0].value) == arr for x in n.body)]
-    ok = len(floops) == 1 and unparse(floops[0].iter) in ('range(%s)' % size, 'range(len(%s))' % arr)
-    rep.check('words', '_create_mpint writes every word it allocates (%s words)' % size, ok, floops[0] if floops else cm,
-              'the word loop iterates %s but the array has %s words: for a negative value whose bit length is a multiple of 64 the top (sign) word stays 0 and the value is encoded as positive' % (unparse(floops[0].iter) if floops else '?', size))
-    if floops:
-        st = [x for x in floops[0].body if isinstance(x, ast.Assign) and isinstance(x.targets[0], ast.Subscript)]
-        ok = len(st) == 1 and unparse(st[0].targets[0].slice) == '%s - %s - 1' % (size, unparse(floops[0].target)) and unparse(st[0].value) == 'n & 18446744073709551615'
-        sh = [x for x in floops[0].body if isinstance(x, ast.AugAssign) and isinstance(x.op, ast.RShift) and unparse(x.value) == '64']
-        rep.check('words', 'words are written most-significant first, 64 bits at a time with an arithmetic shift', ok and len(sh) == 1, floops[0], '_create_mpint word store changed')
-    fm = [n for n in walk_no_nested(cm) if isinstance(n, ast.Call) and isinstance(n.func, ast.Attribute) and n.func.attr == 'format' and isinstance(n.func.value, ast.Constant)]
-    rep.check('words', 'pack format holds the same number of 64-bit words', len(fm) == 1 and fm[0].func.value.value == '>{}Q' and unparse(fm[0].args[0]) == size, fm[0] if fm else cm, 'pack format word count differs from the allocation')
+        def show(rows, what):
+            out = []
+            for v, got, want in rows[:3]:
+                g = ('%s...' % got[:12].hex() if len(got) > 12 else got.hex()) if isinstance(got, bytes) else (got[1] if isinstance(got, tuple) and got[0] == 'error' else (_codec.short(got[0]) + ' after %d bytes' % got[1] if isinstance(got, tuple) else repr(got)))
+                w = '%s...' % want[:12].hex() if len(want) > 12 else want.hex()
+                out.append('%s: %s %s, the encoding is %s (%d bytes)' % (_codec.short(v), what, g, w, len(want)))
+            return '; '.join(out) + (' (and %d more)' % (len(rows) - 3) if len(rows) > 3 else '')
+        rep.check(rule, 'WriteBuf.%s emits the documented encoding for %d values' % (wname, len(values)), not wbad, wf,
+                  'WriteBuf.%s does not emit the documented encoding -- %s' % (wname, show(wbad, 'writes')), func='writebuf:WriteBuf.%s' % wname, stmt='%s encoding' % wname,
+                  sample={'rule': rule, 'writer': wname, 'values': len(values)})
+        rep.check(rule, 'ReadBuf.%s decodes the documented encoding of %d values and consumes exactly its bytes' % (rname, len(values)), not rbad, rf,
+                  'ReadBuf.%s does not decode the documented encoding -- %s' % (rname, show(rbad, 'reads')), func='readbuf:ReadBuf.%s' % rname, stmt='%s decoding' % rname,
+                  sample={'rule': rule, 'reader': rname, 'values': len(values)})
     # ---- rule 4: framing ---------------------------------------------------------------------------------------------------------
     sp = F('ssh_socket', 'SSH_Socket.send_packet')
     gp = F('dheat', 'DHEat.get_padding')
@@ -311,35 +183,31 @@ def run(repo, rep, tier):
     block = bsz[0].value.value if bsz and isinstance(bsz[0].value, ast.Constant) else None
     rep.check('framing', 'reader block size is 8', block == 8, bsz[0] if bsz else sinit, 'reader block size is %s' % block)
 
-    def pad_cases(func, var, what):
-        rows = []
-        for L in range(0, 24):
-            env = {'len(payload)': L, var: None, 'plen': None}
-            try:
-                track_block(func.body, env, {var, 'plen'}, on_eval=rep.evals)
-            except Unknown as e:
-                raise AnalysisError('%s: padding computation not interpretable: %s' % (what, e))
-            pad = env[var]
-            rows.append((L, pad))
-            ok = isinstance(pad, int) and 4 <= pad <= 255 and (4 + 1 + L + pad) % 8 == 0 and pad < 4 + 8
-            rep.check('framing', '%s: payload length %d -> padding %s (>= 4, total multiple of 8, minimal)' % (what, L, pad), ok, func, '%s: payload of %d bytes gets %s padding bytes: total %s' % (what, L, pad, (5 + L + pad) if isinstance(pad, int) else '?'))
-            if func is sp and isinstance(env.get('plen'), int):
-                rep.check('framing', '%s: packet_length field = payload + padding + 1 for length %d' % (what, L), env['plen'] == L + pad + 1, func, 'packet_length field is %s for payload %d padding %s' % (env['plen'], L, pad))
-        return rows
-    r_a = pad_cases(sp, 'padding', 'SSH_Socket.send_packet')
-    r_b = pad_cases(gp, 'pad_len', 'DHEat.get_padding')
-    rep.check('framing', 'both packet builders compute the same padding for every residue', r_a == r_b, gp, 'padding differs between send_packet and get_padding: %s' % [(a, b) for a, b in zip(r_a, r_b) if a != b][:3], sample={'rule': 'framing', 'padding_by_length': r_a[:8]})
-    packs = fmt_of(sp)
-    ok = len(packs) == 1 and packs[0][0] == '>Ib' and struct.calcsize(packs[0][0]) == 5
-    rep.check('framing', 'header is packed as uint32 length + one padding-length byte (5 bytes, the constant in the padding formula)', ok, packs[0][1] if packs else sp, 'header pack format: %s' % [x for x, n in packs])
-    if packs:
-        args = [unparse(a) for a in packs[0][1].args[1:]]
-        rep.check('framing', 'header carries (packet_length, padding_length)', args == ['plen', 'padding'], packs[0][1], 'header arguments: %s' % args)
-    data = [n for n in walk_no_nested(sp) if isinstance(n, ast.Assign) and unparse(n.targets[0]) == 'data']
-    ok = len(data) == 1 and unparse(data[0].value).endswith('+ payload + pad_bytes')
-    rep.check('framing', 'packet = header + payload + padding', ok, data[0] if data else sp, 'packet assembly changed')
-    pb = [n for n in walk_no_nested(sp) if isinstance(n, ast.Assign) and unparse(n.targets[0]) == 'pad_bytes']
-    rep.check('framing', 'padding bytes have the computed length', len(pb) == 1 and unparse(pb[0].value) in ("b'\\x00' * padding",), pb[0] if pb else sp, 'pad_bytes changed')
+    # writer side, by interpretation (props/_codec.send_packet / get_padding): for every payload length the bytes handed to send() are parsed back by the
+    # checker's own RFC 4253 section 6 decoder
+    lengths = list(range(0, 48)) + [255, 256, 1000, 4095, 4096, 35000]
+    r_a, r_b = [], []
+    for L in lengths:
+        payload = bytes((7 * i + 3) % 256 for i in range(L))
+        data = _codec.send_packet(repo, payload)
+        rep.evals()
+        pad = None
+        if isinstance(data, bytes) and len(data) >= 5:
+            plen, pad = struct.unpack('>IB', data[:5])
+            ok = len(data) % 8 == 0 and plen == len(data) - 4 and 4 <= pad < 12 and len(data) == 5 + L + pad and data[5:5 + L] == payload
+            why = 'total %d bytes, packet_length field %d, padding_length field %d' % (len(data), plen, pad)
+        else:
+            ok, why = False, (data[1] if isinstance(data, tuple) else 'only %d bytes sent' % len(data))
+        r_a.append((L, pad))
+        rep.check('framing', 'SSH_Socket.send_packet: payload length %d -> total multiple of 8, padding >= 4 and minimal, consistent length fields, payload intact' % L, ok, sp,
+                  'SSH_Socket.send_packet: a payload of %d bytes is framed wrongly (%s)' % (L, why), stmt='send_packet framing')
+        gpv = _codec.get_padding(repo, payload)
+        rep.evals()
+        ok = isinstance(gpv, tuple) and len(gpv) == 2 and isinstance(gpv[0], int) and isinstance(gpv[1], bytes) and 4 <= gpv[0] < 12 and (5 + L + gpv[0]) % 8 == 0 and len(gpv[1]) == gpv[0]
+        r_b.append((L, gpv[0] if isinstance(gpv, tuple) and len(gpv) == 2 and gpv[0] != 'error' else None))
+        rep.check('framing', 'DHEat.get_padding: payload length %d -> padding >= 4, minimal, total multiple of 8, as many bytes as announced' % L, ok, gp,
+                  'DHEat.get_padding: a payload of %d bytes gets %s' % (L, ('padding length %r with %d padding bytes (total %d)' % (gpv[0], len(gpv[1]), 5 + L + gpv[0])) if ok is False and isinstance(gpv, tuple) and len(gpv) == 2 and isinstance(gpv[0], int) and isinstance(gpv[1], bytes) else repr(gpv)[:80]), stmt='get_padding framing')
+    rep.check('framing', 'both packet builders compute the same padding for every length', r_a == r_b, gp, 'padding differs between send_packet and get_padding: %s' % [(x, y) for x, y in zip(r_a, r_b) if x != y][:3], sample={'rule': 'framing', 'padding_by_length': r_a[:8]})
     # reader: per protocol version the statements of read_packet are linearised and locals substituted forward (props/_framing.reader_model); what is tested
     # against the block size and what is read as payload are linear forms over the values read from the wire -- whatever temporaries or helpers compute them
     from props import _framing as _fr
